@@ -200,6 +200,15 @@ def compare(a, b, lines_holder=[None]):
                 if "EXC" in v: return False
                 got = sorted(val for val, _ in kvlist(v)); want = sorted(large if name.startswith("l_") else small)
                 if len(got) != len(want) or any(abs(g - w) > 1e-9 * scale for g, w in zip(got, want)): return False
+                # every reported (contribution, index) entry against the value the extracted model of that algorithm
+                # computes for that index (md= HypervolumeContributionMD, c3d= the 3-D sweep, c2d= the 2-D formula)
+                col = "md" if name.endswith("_md") else {2: "c2d", 3: "c3d"}.get(int(fx.get("d", "0")), "md")
+                mv = fx.get(col, "-")
+                if mv not in ("-", None):
+                    mvals = ints(mv); exact = col != "md"
+                    for val, idx in kvlist(v):
+                        if idx >= len(mvals): return False
+                        if (val != mvals[idx]) if exact else (abs(val - mvals[idx]) > 1e-9 * scale): return False
         elif kind == "S":
             # the model of HypervolumeSubsetSelection2D (createFront, upper envelope, dynamic programme, back-tracking)
             # selects exactly the points the code selects (n <= 16: std::sort is libstdc++'s insertion sort)
@@ -241,8 +250,37 @@ def make_ref(rng, P, d, R, strict=False):
 def case_lines(q, d, k, ref, P):
     return ["C %s %d %d %s" % (q, d, k, " ".join(map(str, ref)))] + ["p " + " ".join(map(str, p)) for p in P] + ["E"]
 
+def gen_dc(rng, big):
+    """rank queries aimed at the case splits of the divide-and-conquer sort: 3-6 objectives (splitA / ndHelperB / splitB need
+    k >= 3 resp. k >= 4), few distinct values per objective (median ties, 'all values of objective k equal'), many
+    duplicates, chains (many fronts), sizes around the switch of the front end (n = 3^(m+1) for m = 3)"""
+    d = rng.choice([2, 3, 3, 4, 4, 4, 5, 5, 6])
+    mode = rng.choice(["few", "few", "lastconst", "chain", "binary", "switch", "mixed"])
+    n = rng.choice([3, 4, 5, 6, 7, 9, 12, 16, 24, 32, 48] + ([64, 96] if big else []))
+    if mode == "few":
+        R = rng.choice([1, 2, 3]); P = [[rng.randint(0, R) for _ in range(d)] for _ in range(n)]
+    elif mode == "binary":
+        P = [[rng.randint(0, 1) for _ in range(d)] for _ in range(n)]
+    elif mode == "lastconst":          # the last 1..d-2 objectives are constant: ndHelperA descends by 'k_equal'
+        c = rng.randint(1, max(1, d - 2)); R = rng.choice([2, 3, 5])
+        P = [[rng.randint(0, R) for _ in range(d - c)] + [1] * c for _ in range(n)]
+    elif mode == "chain":              # long dominance chains plus incomparable points: many fronts, fronts set by ndHelperB
+        R = 3; P = []
+        for i in range(n):
+            b = i // 2
+            P.append([b + rng.randint(0, 1) for _ in range(d)] if rng.random() < 0.7 else [rng.randint(0, n // 2) for _ in range(d)])
+    elif mode == "switch":             # sizes around n = 3^(m+1): both branches of the front end (m = 3 only: 81)
+        d = 3; n = rng.choice([79, 80, 81, 82, 83, 90]); R = rng.choice([3, 5, 8])
+        P = [[rng.randint(0, R) for _ in range(d)] for _ in range(n)]
+    else:
+        R = rng.choice([2, 4, 6]); P = rng_points(rng, d, n, R)
+    if mode != "switch" and rng.random() < 0.3:
+        for _ in range(rng.randint(1, 4)): P.insert(rng.randrange(len(P) + 1), list(rng.choice(P)))
+    return case_lines("R", d, 0, [0] * d, P)
+
 def gen_case(rng, big, kind=None):
-    kind = kind or rng.choice(["R", "R", "H", "H", "H", "K", "K", "S", "S"])
+    kind = kind or rng.choice(["R", "R", "H", "H", "H", "K", "K", "S", "S", "D"])
+    if kind == "D": return gen_dc(rng, big)
     d, R = pick_dR(rng, big)
     if kind == "R":
         n = rng.choice([1, 2, 3, 5, 8, 13, 20, 30, 40] + ([60, 80] if big else []))
@@ -291,7 +329,7 @@ def load_cases(ck, gen, n):
 def model_checks(ck, cases, model_out):
     """consistency inside the model run: unproved model parts against the proved spec values"""
     bad = []
-    stats = {"fast_nds=rank_list": 0, "contrib2d_ref=contrib_spec": 0, "best_subset(model)=best_subset(monitor)": 0,
+    stats = {"fast_nds=rank_list": 0, "dc_nds=nds_front=rank_list": 0, "contrib2d_ref=contrib_spec": 0, "best_subset(model)=best_subset(monitor)": 0,
              "hv3d=hv_spec": 0, "wfg=hv_spec": 0, "wfg_limit=python_limit": 0,
              "hv(hssp2d model selection)=best_subset_hv": 0}
     for c, (o, rc, _) in zip(cases, model_out):
@@ -302,8 +340,11 @@ def model_checks(ck, cases, model_out):
         f = fields(r)
         if q == "R":
             stats["fast_nds=rank_list"] += 1
-            if f["nds"] != f["fast"]: bad.append(("fast_nds model differs from rank_list", c, r))
-            if ints(f["nds"]) != spec_ranks(P): bad.append(("rank_list differs from the Python rank definition", c, r))
+            if f["spec"] != f["fast"]: bad.append(("fast_nds model differs from rank_list", c, r))
+            stats["dc_nds=nds_front=rank_list"] += 1
+            if f["spec"] != f["dc"]: bad.append(("dc_nds model (divide-and-conquer sort) differs from rank_list", c, r))
+            if f["spec"] != f["nds"]: bad.append(("nds_front model (sorting front end) differs from rank_list", c, r))
+            if ints(f["spec"]) != spec_ranks(P): bad.append(("rank_list differs from the Python rank definition", c, r))
         elif q == "H":
             if int(f["spec"]) != spec_hv(P, ref): bad.append(("hv_spec differs from the Python slab HSO", c, r))
             if f["a2"] != "-" and f["a2"] != f["spec"]: bad.append(("hv2d model differs from hv_spec", c, r))
@@ -340,9 +381,9 @@ def model_checks(ck, cases, model_out):
 def main():
     ck = Check(PID)
     ck.trusted = DEFAULT_TRUSTED + ["modelled not verified: std::sort / heap algorithms of libstdc++ ('some arrangement sorted by the key'; theorem C13_hv2d_correct_any_tie_order quantifies over all of them)",
-                                    "modelled not verified: nonDominatedSort inside WFG's limitSet is taken to compute rank_list (proved for fastNonDominatedSort, differential test for the DC sort and the dispatcher: query R; the limit set itself is compared on every H query)",
+                                    "modelled not verified: std::map of the DC sort's sweeps is an association list with unique keys (iteration order is not observable: a maximum is computed); std::nth_element / std::max_element in median() are 'the element of rank n/2' / 'the maximum of the lower half' of the sorted values",
                                     "modelled not verified: std::sort in createFront of the 2-D subset selection is libstdc++'s insertion sort (n <= 16; the selection vector is compared for n <= 16 only; the theorem covers every arrangement sorted by the first objective); double comparisons of intersection abscissae with the 1e-10 tolerance are exact rational comparisons on small integer coordinates",
-                                    "not proved, differential test only: DC sort, sorting/contribution front ends, HOY (the hypervolume front end is proved for every dimension except 4), 3-D/MD contributions, overloads without reference point"]
+                                    "not proved, differential test only: contribution front end, HOY (the hypervolume front end is proved for every dimension except 4), 3-D/MD contributions, overloads without reference point"]
     ck.assumptions = ["integer objective values (products of at most 5 integers <= 13 are exact in double, comparison is equality; MD contributions use exp(sum(log)) and are compared at 1e-9 relative to the total hypervolume)",
                       "reference point weakly dominated by every point (ref_i >= max coordinate, mostly strictly)",
                       "contribution queries: mutually non-dominated sets with duplicates, 1 <= k <= n, overloads WITH reference point in the main stream; overloads without reference point in a separate stream",
@@ -370,7 +411,7 @@ def main():
         touch = q != "R" and any(x == r for p in P for x, r in zip(p, ref))
         return "%s d=%d n=%d%s: %s" % (q, d, len(P), " point-on-reference-boundary" if touch else "", msg)
     r = correspond(ck, main_cases, model, exe, monitor, tmpd, compare=compare, impl_env=env,
-                   what="C13Model/C13Wfg/C13Sweep3d (rank_list, hv_spec, hv2d, hv3d, wfg, wfg_limit, hssp2d, contribs_spec, best_subset_hv) vs shark nonDominatedSort/Hypervolume*",
+                   what="C13Model/C13Dc/C13Wfg/C13Sweep3d (rank_list, fast_nds, dc_nds, nds_front, hv_spec, hv2d, hv3d, wfg, wfg_limit, hssp2d, contribs_spec, best_subset_hv) vs shark nonDominatedSort/Hypervolume*",
                    search=search, keyfn=keyfn)
     stats = model_checks(ck, main_cases, r["model_out"])
 
